@@ -76,17 +76,14 @@ InvReserve      == (IsCelt /\ Leaf) => ReserveOK(st.r)
 InvSilence      == (IsCelt /\ Leaf) => SilenceReadsNothing(st.r)
 InvShape        == (IsCelt /\ Leaf) => ShapeOK(st.r)
 InvMirror       == (IsCelt /\ Leaf) => MirrorOK(st.r)
+InvEncKeeps     == (IsCelt /\ Leaf) => EncoderKeepsDecodedValue(st.r)      \* expected to FAIL: see FrameHdr
 InvTapset       == (IsCelt /\ Leaf) => TapsetAlwaysRead(st.r)
 \* every read of the stream was used in order and nothing is left over at a leaf
 InvStreamUsed   == (IsCelt /\ Leaf) => st.r.i >= Len(st.r.rq.vals) + 1 /\ st.r.pc = "done"
 \* growing the stream choice by choice gives what decoding the whole stream gives
-InvIncremental  == (IsCelt /\ Leaf /\ CheckIncremental) => CeltDec(st.r.rq) = st.r
-\* the Laplace intervals used for the counter are those of the declarative model in SymCodes (cross-module)
-InvLaplace      == st.k = "root" =>
-                     \A LM \in 0..3, intra \in 0..1, b \in {0, 5, 12, 20} : S!LapStructureOK(EProb[LM + 1][intra + 1][2 * b + 1] * 128, EProb[LM + 1][intra + 1][2 * b + 2] * 64)
-
+InvIncremental  == (IsCelt /\ Leaf /\ CheckIncremental) => CeltDec(st.r.rq) = [st.r EXCEPT !.needAt = 0]
 GenCelt == (Gen /\ IsCelt /\ Leaf) =>
-             PrintT("REQ C " \o ToString(<<st.r.rq.len, st.r.rq.LM, st.r.rq.C, st.r.rq.start, st.r.rq.end, st.r.rq.pre>>) \o " " \o ToString(st.r.rq.vals))
+             PrintT("REQ C " \o ToString(<<st.r.rq.len, st.r.rq.LM, st.r.rq.C, st.r.rq.start, st.r.rq.end, st.r.rq.pre, Sig(st.r.dl, CeltKinds)>>) \o " " \o ToString(st.r.rq.vals))
 
 -----------------------------------------------------------------------------
 (* speech layer, decoder side *)
@@ -110,7 +107,7 @@ InvLost         == SLeaf => LostReadsNothing(st.rq, st.pdom)
 InvHistory      == SLeaf => OrderIndependentOfHistory(st.rq)
 InvFecCalls     == SLeaf => CallsPartition(SilkDec(st.rq, FLAG_DECODE_LBRR, st.pdom))
 GenSilk == (Gen /\ SLeaf) =>
-             PrintT("REQ S " \o ToString(<<st.rq.nf, st.rq.nch, st.pdom>>) \o " " \o ToString(st.rq.vals))
+             PrintT("REQ S " \o ToString(<<st.rq.nf, st.rq.nch, Sig(SR.dl, SilkKinds)>>) \o " " \o ToString(st.rq.vals))
 
 \* the flag layout is the one opus_packet_has_lbrr reads (Framing!HasLbrrOf, RFC 6716 4.2.3/4.2.4): decode the
 \* first payload byte with the real range decoder (RangeDec32), hand the bits to the header machine as its
